@@ -246,19 +246,30 @@ def run(tier, seed):
     for e in errors + e2 + e3:
         res.violation("model evaluation failed (coqc)", dict(kind="coqc-error", log=e, no_failing_input_found=True))
     res.traces_validated = len(hc) + len(vc) + len(kc) - len(failing) - len(f2) - len(f3)
+    # ---- whole loop-body passes of real FSSH runs replayed through Model/Traj.step (wiring of the pieces)
+    import ptraj
+    tc, tmeta = ptraj.collect(res, rng, 7 if tier == "quick" else 40, 40 if tier == "quick" else 400)
+    f4, e4 = run_case_check("C01traj", ptraj.PRELUDE_T, "caseT", "chkT", tc, per_file=8, timeout=1500)
+    for e in e4:
+        res.violation("model evaluation failed (coqc)", dict(kind="coqc-error", log=e, no_failing_input_found=True))
+    res.traces_validated += len(tc) - len(f4)
     # ---- trajectory level: logged total energy drift is O(dt^2) (supporting oracle; the theorem part is partial)
     drift_bad = energy_drift_probe(res, rng, tier)
     bad = hbad + vbad + drift_bad
-    corr = [hmeta[i] for i in failing[:5]] + [vmeta[i] for i in f2[:5]] + [dict(ke_case=vmeta[i]) for i in f3[:5]]
+    corr = [hmeta[i] for i in failing[:5]] + [vmeta[i] for i in f2[:5]] + [dict(ke_case=vmeta[i]) for i in f3[:5]] + [dict(full_step=tmeta[i]) for i in f4[:5]]
     if bad:
         res.violation("implementation violates: " + bad[0]["failed"], dict(kind="oracle", failing_inputs=bad[:5], correspondence_failures=corr))
     elif corr:
-        res.violation("implementation differs from Model/Hop.v (hop/Verlet theorems no longer cover the code)",
-                      dict(kind="correspondence", correspondence="Run/R01: Model/Hop.v vs TrajectorySH.hop_to_it / advance_position / advance_velocity / kinetic_energy",
+        only_full = bool(f4) and not (failing or f2 or f3)
+        res.violation("loop body of TrajectorySH.simulate differs from Model/Traj.step (Run/RTraj.chkT): the pieces are wired in a different order or with different arguments; C01_full_step_hop_conserves_energy no longer covers the code"
+                      if only_full else "implementation differs from Model/Hop.v (hop/Verlet theorems no longer cover the code)",
+                      dict(kind="correspondence", correspondence="Run/RTraj.chkT: Model/Traj.step vs advance_position; advance_velocity; propagate_electronics; surface_hopping of TrajectorySH.simulate"
+                           if only_full else "Run/R01: Model/Hop.v vs TrajectorySH.hop_to_it / advance_position / advance_velocity / kinetic_energy",
                            failing_inputs=corr, no_failing_input_found=True))
     return finish(res, thm,
                   rule="hop: ndim 1..6, masses 1..1e5, random/axis/near-parallel directions, gaps: downward, allowed, frustrated, 1e-13..1e-9 from threshold, exact dyadic ties; "
                        "driven through hop_to_it of TrajectorySH, TrajectoryCum, AugmentedFSSH and even-sampling children; Verlet: advance_position/advance_velocity of TrajectorySH and AdiabaticMD; "
+                       "whole loop-body passes of real FSSH runs (simple, dual, extended, super, modelx, vibronic, modelw) replayed through Model/Traj.step; "
                        "non-trivial = distinct input tuple",
                   assumptions=["root selection: model uses c/q, numpy uses companion-matrix roots; compared at 2^-36 * velocity scale",
                                "decisions with relative margin < 2^-40 are knife-edge and excluded from the correspondence (still checked exactly on dyadic ties)",
